@@ -179,3 +179,72 @@ impl Drop for Out {
         self.w.flush().unwrap();
     }
 }
+
+/// Helpers shared by the index properties (C07–C10): building signatures, collections and on-disk
+/// indexes from plain hash lists.
+pub mod index_util {
+    use camino::Utf8PathBuf as PathBuf;
+    use sourmash::collection::{Collection, CollectionSet};
+    use sourmash::encodings::HashFunctions;
+    use sourmash::signature::Signature;
+    use sourmash::sketch::minhash::KmerMinHash;
+    use sourmash::sketch::Sketch;
+
+    pub const KSIZE: u32 = 21;
+
+    /// a scaled KmerMinHash holding exactly `hashes` (all must be <= max_hash_for_scaled(scaled))
+    pub fn make_mh(hashes: &[u64], abunds: Option<&[u64]>, scaled: u64) -> KmerMinHash {
+        let mut mh = KmerMinHash::new(scaled, KSIZE, HashFunctions::Murmur64Dna, 42, abunds.is_some(), 0);
+        match abunds {
+            Some(ab) => {
+                for (h, a) in hashes.iter().zip(ab.iter()) {
+                    mh.add_hash_with_abundance(*h, *a);
+                }
+            }
+            None => {
+                for h in hashes {
+                    mh.add_hash(*h);
+                }
+            }
+        }
+        mh
+    }
+
+    pub fn make_sig(name: &str, hashes: &[u64], abunds: Option<&[u64]>, scaled: u64) -> Signature {
+        let mut sig = Signature::default();
+        sig.set_name(name);
+        sig.set_filename(&format!("{}.fa", name));
+        sig.push(Sketch::MinHash(make_mh(hashes, abunds, scaled)));
+        sig
+    }
+
+    /// memory-backed collection (cannot be reopened from disk)
+    pub fn mem_collection(sigs: Vec<Signature>) -> CollectionSet {
+        Collection::from_sigs(sigs).unwrap().try_into().unwrap()
+    }
+
+    /// write one `.sig` file per signature into `dir`, return the paths in order
+    pub fn write_sig_files(dir: &std::path::Path, sigs: &[Signature]) -> Vec<PathBuf> {
+        std::fs::create_dir_all(dir).unwrap();
+        sigs.iter()
+            .enumerate()
+            .map(|(i, sig)| {
+                let p = dir.join(format!("d{}.sig", i));
+                let mut f = std::fs::File::create(&p).unwrap();
+                serde_json::to_writer(&mut f, &vec![sig]).unwrap();
+                PathBuf::from_path_buf(p).unwrap()
+            })
+            .collect()
+    }
+
+    /// filesystem-backed collection over files written by `write_sig_files`
+    pub fn fs_collection(paths: &[PathBuf]) -> CollectionSet {
+        Collection::from_paths(paths).unwrap().try_into().unwrap()
+    }
+
+    /// scratch directory that lives outside /tmp-dependent state of registered commands: it is
+    /// created under the system temp dir and removed when the guard drops.
+    pub fn scratch_dir() -> tempfile::TempDir {
+        tempfile::Builder::new().prefix("verif-idx-").tempdir().unwrap()
+    }
+}
